@@ -664,3 +664,90 @@ def renamed_in_select_schema(names, variant=0, schema_name="ren_in_sel"):
     for d in (en, ren, ren2, ent, sel, sel2, rsel, sub):
         s.add(d)
     return SchemaFile([s])
+
+
+def type_only_schemas():
+    """[(label, SchemaFile)]: schemas WITHOUT entities — each kind of defined type alone, and a 'vocabulary' schema of
+    simple/aggregate/renamed types (none of which gets per-type files)"""
+    out = []
+    def one(label, build):
+        s = Schema("only_" + label)
+        build(s)
+        out.append((label, SchemaFile([s])))
+    for sn in SIMPLE:
+        one(sn.lower(), lambda s, sn=sn: s.add(TypeDecl("t_" + sn.lower(), TSimple(sn))))
+    one("enum", lambda s: s.add(TypeDecl("t_enum", "enum", items=["aa", "bb"])))
+    def ren_enum(s):
+        e = s.add(TypeDecl("t_enum", "enum", items=["aa", "bb"]))
+        s.add(TypeDecl("t_enum_ren", TRef(e)))
+    one("renamed_enum", ren_enum)
+    def sel(s):
+        a = s.add(TypeDecl("t_lab", TSimple("STRING")))
+        b = s.add(TypeDecl("t_cnt", TSimple("INTEGER")))
+        x = s.add(TypeDecl("t_sel", "select", items=[TRef(a), TRef(b)]))
+        s.add(TypeDecl("t_sel_ren", TRef(x)))
+    one("select", sel)
+    for agg in AGG:
+        lo, hi = (Bound("lit", "1", value=1), Bound("lit", "3", value=3)) if agg == "ARRAY" else (None, None)
+        one(agg.lower(), lambda s, agg=agg, lo=lo, hi=hi: s.add(TypeDecl("t_" + agg.lower(), TAgg(agg, lo, hi, TSimple("REAL")))))
+    def vocab(s):
+        lab = s.add(TypeDecl("label", TSimple("STRING")))
+        s.add(TypeDecl("text", TRef(lab)))
+        cnt = s.add(TypeDecl("count", TSimple("INTEGER")))
+        cnt.where = "positive : SELF >= 0"
+        ratio = s.add(TypeDecl("ratio", TSimple("REAL")))
+        s.add(TypeDecl("flag", TSimple("BOOLEAN")))
+        s.add(TypeDecl("labels", TAgg("LIST", Bound("lit", "1", value=1), Bound("inf", "?"), TRef(lab))))
+        three = Bound("lit", "3", value=3)
+        one_ = Bound("lit", "1", value=1)
+        s.add(TypeDecl("matrix", TAgg("ARRAY", one_, three, TAgg("ARRAY", one_, three, TRef(ratio)))))
+        s.add(TypeDecl("labels_ren", TRef(s.decls[-2])))
+    one("vocabulary", vocab)
+    return out
+
+
+def long_identifier_schema(kind, lengths, filler="q"):
+    """schema in which declarations of `kind` (enum | select | entity | simple | agg | renamed_enum | function | schema)
+    have names of the given lengths (1 or 2 lengths; all <= 200 are inside exp2cxx's identifier gate); the rest of the
+    schema is ordinary and uses the long-named declarations (attribute types, select items)"""
+    def nm(prefix, n, i):
+        base = f"{prefix}{i}_"
+        return base + (filler * (n - len(base)))
+    s = Schema(nm("s", lengths[0], 0) if kind == "schema" else "long_names")
+    ent = EntityDecl("thing")
+    ent.attrs.append(Attr("nm", TSimple("STRING")))
+    made = []
+    for i, n in enumerate(lengths):
+        if kind == "enum":
+            d = TypeDecl(nm("colour", n, i), "enum", items=[f"red{i}", f"green{i}"])
+        elif kind == "renamed_enum":
+            o = s.add(TypeDecl(f"orig{i}", "enum", items=[f"ra{i}", f"rb{i}"]))
+            d = TypeDecl(nm("shade", n, i), TRef(o))
+        elif kind == "select":
+            d = TypeDecl(nm("pick", n, i), "select", items=[TRef(ent)])
+        elif kind == "simple":
+            d = TypeDecl(nm("label", n, i), TSimple("STRING"))
+        elif kind == "agg":
+            d = TypeDecl(nm("row", n, i), TAgg("LIST", None, None, TSimple("REAL")))
+        elif kind == "entity":
+            d = EntityDecl(nm("part", n, i))
+        elif kind == "function":
+            fn = nm("f", n, i)
+            d = OtherDecl("FUNCTION", fn, f"FUNCTION {fn}(x : INTEGER) : INTEGER;\n  RETURN (x);\nEND_FUNCTION;")
+        else:
+            d = TypeDecl(f"plain{i}", "enum", items=[f"pa{i}", f"pb{i}"])
+        made.append(d)
+    s.add(ent)
+    other = EntityDecl("other")
+    for i, d in enumerate(made):
+        s.add(d)
+        if isinstance(d, (TypeDecl, EntityDecl)):
+            other.attrs.append(Attr(f"a{i}", TRef(d)))
+    s.add(TypeDecl("short_enum", "enum", items=["xa", "xb"]))
+    other.attrs.append(Attr("z", TRef(s.decls[-1])))
+    s.add(other)
+    for a in ent.attrs:
+        a.owner = ent
+    for a in other.attrs:
+        a.owner = other
+    return SchemaFile([s])
